@@ -385,8 +385,10 @@ bool World::exec_detect_op(const Step& s)
             if (!nf)
                 report("C13", "C13|engine_library.load|expected-not-found", ctx + ", expected database_not_found");
         }
-        else if (sup >= 11)
+        else if (sup >= 0)
         {
+            // this loader has no layout rule of its own: it maps the stored triple (and marker) to its schema, 1.x
+            // triples included
             if (o.threw || loaded != eng::supported_schemas[(size_t)sup])
                 report("C13", std::string("C13|engine_library.load|") + (o.threw ? "supported-rejected" : "misidentified"),
                        ctx + ", expected " + eng::to_string(eng::supported_schemas[(size_t)sup]));
